@@ -77,7 +77,7 @@ def gen(seed):
             picked += 1
             if picked >= n:
                 break
-    json.dump(out, open(os.path.join(ROOT, "tools", "mutants", "auto.json"), "w"), indent=1)
+    json.dump(out, open(os.path.join(ROOT, "tools", "mutants", os.environ.get("AUTOMUT_FILE", "auto.json")), "w"), indent=1)
     print(len(out), "mutants written")
 
 
@@ -97,7 +97,7 @@ def sh(cmd, cwd, timeout=None, env=None):
 
 def run(sl, nsl):
     assert REPO != "/repo", "run inside a scratch copy only"
-    ms = json.load(open(os.path.join(ROOT, "tools", "mutants", "auto.json")))
+    ms = json.load(open(os.path.join(ROOT, "tools", "mutants", os.environ.get("AUTOMUT_FILE", "auto.json"))))
     outp = "/verif/tools/mutants/auto_results.%d.jsonl" % sl
     done = set()
     if os.path.exists(outp):
@@ -122,7 +122,7 @@ def run(sl, nsl):
                 else:
                     res["result"] = "survived"
                     res["checks"] = {}
-                    for pid in m["properties"]:
+                    for pid in m["properties"] + [x for x in EXTRA.get(m["file"], []) if x not in m["properties"]]:
                         t0 = time.time()
                         p = sh(["./check", pid, "--tier", "quick"], ROOT, 1500, {"VERIF_SEED": "1"})
                         sig = ""
